@@ -1,0 +1,89 @@
+/*
+ * Verification facade: the threaded client's websocket read adapter (`WebsocketStreamWrapper`) over a
+ * scripted in-memory stream carrying server frames.
+ *
+ * `ws.read frames=<kind><hex>,... calls=<buf>@<avail>,...`
+ *   frames: b<hex> binary message, t<hex> text message, p<hex> ping, c close
+ *   calls:  one `read` per entry with a buffer of <buf> bytes, after <avail> more bytes of the framed
+ *           stream have become readable on the socket
+ * -> `res=ok reads=ok:<hex>|wouldblock|err,...`
+ */
+
+use std::io::{Read, Write};
+use std::sync::{Arc, Mutex};
+use super::text::*;
+
+struct ScriptedSocket {
+    data: Arc<Mutex<(Vec<u8>, usize, usize)>>,   // (framed stream, read position, readable limit)
+}
+
+impl Read for ScriptedSocket {
+    fn read(&mut self, buf: &mut [u8]) -> std::io::Result<usize> {
+        let mut guard = self.data.lock().unwrap();
+        let (stream, position, limit) = &mut *guard;
+        if *position >= *limit {
+            let _ = stream;
+            return Err(std::io::Error::from(std::io::ErrorKind::WouldBlock));
+        }
+        let amount = usize::min(buf.len(), *limit - *position);
+        buf[..amount].copy_from_slice(&stream[*position..*position + amount]);
+        *position += amount;
+        Ok(amount)
+    }
+}
+
+impl Write for ScriptedSocket {
+    fn write(&mut self, buf: &[u8]) -> std::io::Result<usize> { Ok(buf.len()) }
+    fn flush(&mut self) -> std::io::Result<()> { Ok(()) }
+}
+
+fn frame(opcode: u8, payload: &[u8]) -> Vec<u8> {
+    let mut out = vec![0x80 | opcode];
+    if payload.len() < 126 {
+        out.push(payload.len() as u8);
+    } else if payload.len() < 65536 {
+        out.push(126);
+        out.extend_from_slice(&(payload.len() as u16).to_be_bytes());
+    } else {
+        out.push(127);
+        out.extend_from_slice(&(payload.len() as u64).to_be_bytes());
+    }
+    out.extend_from_slice(payload);
+    out
+}
+
+pub(crate) fn cmd_ws_read(head: &str) -> Result<String, String> {
+    let (_, kv) = split_kv(head);
+    let mut stream = Vec::new();
+    for spec in get(&kv, "frames").unwrap_or("").split(',').filter(|s| !s.is_empty()) {
+        let (kind, body) = spec.split_at(1);
+        let payload = if body.is_empty() { Vec::new() } else { unhex(body)? };
+        match kind {
+            "b" => stream.extend(frame(2, &payload)),
+            "t" => stream.extend(frame(1, &payload)),
+            "p" => stream.extend(frame(9, &payload)),
+            "c" => stream.extend(frame(8, &[])),
+            _ => return Err("bad frame kind".to_string()),
+        }
+    }
+    let shared = Arc::new(Mutex::new((stream, 0usize, 0usize)));
+    let mut wrapper = crate::client::synchronous::threaded::verif_wrap_websocket(ScriptedSocket { data: shared.clone() });
+    let mut outs = Vec::new();
+    for call in get(&kv, "calls").unwrap_or("").split(',').filter(|s| !s.is_empty()) {
+        let (buf_len, avail) = call.split_once('@').ok_or("bad call")?;
+        let buf_len: usize = buf_len.parse().map_err(|_| "bad call")?;
+        let avail: usize = avail.parse().map_err(|_| "bad call")?;
+        {
+            let mut guard = shared.lock().unwrap();
+            guard.2 = usize::min(guard.0.len(), guard.2 + avail);
+        }
+        let mut buf = vec![0u8; buf_len];
+        match wrapper.read(&mut buf) {
+            Ok(n) if n <= buf_len => outs.push(format!("ok:{}", hex(&buf[..n]))),
+            Ok(n) => outs.push(format!("overrun:{}", n)),
+            Err(e) if e.kind() == std::io::ErrorKind::WouldBlock => outs.push("wouldblock".to_string()),
+            Err(_) => outs.push("err".to_string()),
+        }
+    }
+    Ok(format!("res=ok reads={}", outs.join(",")))
+}
